@@ -12,6 +12,7 @@ import (
 
 	"github.com/smart-core-os/sc-api/go/traits"
 	"github.com/smart-core-os/sc-api/go/types"
+	"github.com/smart-core-os/sc-golang/pkg/masks"
 	"github.com/smart-core-os/sc-golang/pkg/resource"
 )
 
@@ -110,7 +111,7 @@ func (m *ModelServer) ListPublications(_ context.Context, request *traits.ListPu
 	lastKey := pageToken.GetLastResourceName() // the key() of the last item we sent
 	pageSize := capPageSize(int(request.GetPageSize()))
 
-	sortedItems := m.model.ListPublications(resource.WithReadMask(request.ReadMask))
+	sortedItems := m.model.ListPublications()
 	nextIndex := 0
 	if lastKey != "" {
 		nextIndex = sort.Search(len(sortedItems), func(i int) bool {
@@ -136,7 +137,11 @@ func (m *ModelServer) ListPublications(_ context.Context, request *traits.ListPu
 	if err != nil {
 		return nil, err
 	}
-	result.Publications = sortedItems[nextIndex:upperBound]
+	// the read mask is applied to the page, not before paging: the token is built from the items' keys
+	filter := masks.NewResponseFilter(masks.WithFieldMask(request.ReadMask))
+	for _, item := range sortedItems[nextIndex:upperBound] {
+		result.Publications = append(result.Publications, filter.FilterClone(item).(*traits.Publication))
+	}
 	return result, nil
 }
 
